@@ -98,7 +98,11 @@ func verifH_C08_log() {
 	hdr := &parser.PacketHeader{Type: parser.PacketTypeEvent, Namespace: "/"}
 	for i := 0; i < h; i++ {
 		verifAdvance(verifSteps())
-		kind := verifChoose(0, 5)
+		kinds := 5
+		if h == 3 && i == 0 {
+			kinds = 1 // thorough, three broadcasts: the first one is "to all" or "to r0" (the full product exceeds the time budget)
+		}
+		kind := verifChoose(0, kinds)
 		before := len(a.packets)
 		a.Broadcast(hdr, []any{"ev"}, verifOpts(kind))
 		verifAssert(len(a.packets) == before+1, "an event broadcast without ack is logged")
